@@ -6,7 +6,10 @@ CFG = dict(
     rule="real ImmuStore histories in temp dirs (5..40 transactions, 1..15 entries with prefixed keys, KV metadata "
          "deleted/expiring/non-indexable, tx metadata extra, header versions 0 and 1) alternate with synthetic "
          "well-formed histories whose binary linking lags (BlTxID_k any non-decreasing value < k, up to 5 behind; real "
-         "TxHeader.Alh(), a real ahtree, proofs assembled as ImmuStore.DualProof assembles them). Per history: the "
+         "TxHeader.Alh(), a real ahtree, proofs assembled as ImmuStore.DualProof assembles them), and with REAL-STORE "
+         "histories whose linking lags FROM GENESIS (replica ImmuStore fed through ReplicateTx with re-linked exports of "
+         "a primary: several leading transactions with BlTxID 0, then catching up; ImmuStore.DualProof for ALL pairs, "
+         "must not fail and must verify; buckets genesislag/*). Per history: the "
          "header list through the model's history checker (wf_histb: ids, PrevAlh chain from sha256(''), BlRoot = "
          "reference tree over the Alh values), Alh of headers, LinearProof terms (inner hashes), Eh = tree over entry "
          "digests, TxEntryDigest/EntrySpecDigest, Tx.Proof(key) (terms compared with the honest proof the completeness "
